@@ -8818,7 +8818,6 @@ def _aten_roll_shift_no_dim_onnx(self: TTensor, shift: int) -> TTensor:
 
 
 def _aten_roll_shift_and_dim_onnx(self: TTensor, shift: int, dim: int) -> TTensor:
-    neg_1 = op.Constant(value_ints=[-1])
     dim_tensor = op.Constant(value_ints=[dim])
     if shift < 0:
         slice_length = op.Constant(value_ints=[-shift])
@@ -8826,7 +8825,11 @@ def _aten_roll_shift_and_dim_onnx(self: TTensor, shift: int, dim: int) -> TTenso
         slice_length = op.Shape(self, start=dim, end=dim + 1) - op.Constant(value_ints=[shift])
     # from [A,B,C,D] -> [D,A,B,C], [D] is prefix, [A,B,C] is suffix
     suffix = op.Slice(self, op.Constant(value_ints=[0]), slice_length, axes=dim_tensor)
-    prefix = op.Slice(self, slice_length, op.Reshape(op.Size(self), neg_1), axes=dim_tensor)
+    # End the slice at INT64_MAX ("to the end of the axis"). Size(self) is 0 for a tensor with an empty
+    # dimension elsewhere, which would make the prefix empty and drop rows.
+    prefix = op.Slice(
+        self, slice_length, op.Constant(value_ints=[_INT64_MAX]), axes=dim_tensor
+    )
     result = op.Concat(prefix, suffix, axis=dim)
     return result
 
